@@ -300,6 +300,9 @@ func cmdCheck(args []string) {
 	for _, k := range rep.Known {
 		fmt.Println(k)
 	}
+	for _, g := range rep.Gone {
+		fmt.Printf("NOTE contract %s has no function in this tree any more (it carries no property clause; recorded in the evidence)\n", g)
+	}
 	// thorough extras
 	extra := map[string]interface{}{}
 	if thorough {
